@@ -84,6 +84,12 @@ def gen_script(rng, ncols, nsess, bufs, allow_bad=False):
             puts = puts[:pos] + [bad] + puts[pos:]
             fault = "badValue"
             retry[c] = bad[0]
+            if bufs[c] in (-1, 0) and rng.chance(1, 2):
+                # every put is written at once: the failing put raises inside the body, the user code catches the exception
+                # and goes on writing in the same session — which then COMPLETES: all its other records must be there
+                fault = "badValueCaught"
+                used += 1
+                puts = puts + [(f"k{used}", bytes([rng.below(256)]) * rng.range(1, 30))]
         script.append((c, kind, fault, puts, cut))
     return script
 
@@ -209,6 +215,17 @@ def run_script(ctx, probe, path: Path, bufs, script, tag, alias: Path = None, pr
                                       {"bufs": bufs, "script": tag, "at": step})
                 ps = [] if fault == "atUpdate" else (puts[:cut] if fault in ("atBody", "atBodyBase") else puts)
                 queue = pending[c] + ps
+                if fault == "badValueCaught":
+                    for k, v in queue:
+                        if isinstance(v, bytes):
+                            expected[k] = v
+                    pending[c] = []
+                    expected_after_min = expected_after_max = dict(expected)
+                    queue = []
+                    if out["exc"] is not None:
+                        ctx.violation("C04:fault-free-session-raised",
+                                      f"session {si}: the user code caught the failing put and went on, but the session ended with {out['exc']}",
+                                      {"bufs": bufs, "script": tag, "at": step})
                 if fault == "badValue":
                     # everything queued before the bad pair is written (flushes write in order), the bad pair is not,
                     # what follows it is either never put (small buffer: the body is aborted) or stays queued
@@ -218,7 +235,7 @@ def run_script(ctx, probe, path: Path, bufs, script, tag, alias: Path = None, pr
                     pending[c] = []
                     expected_after_min = expected_after_max = dict(expected)
                     queue = []
-                if fault == "badValue":
+                if fault in ("badValue", "badValueCaught"):
                     pass
                 elif fault in ("atFlush", "atFlushTorn") and queue:
                     # the first write of the exit flush raises: that pair is popped and lost, the rest stays queued in the
@@ -695,6 +712,14 @@ def run(ctx):
                 sc.append((0, "writing", "none", [("bad0", b"again"), ("late", b"")], 2))
                 sc.append((1, "reading", "none", [], 0))
                 directed.append(([bufA, 64], sc))
+        for bufA in (-1, 0):
+            for klen in (3, 40):
+                directed.append(([bufA, 64], [
+                    (0, "writing", "none", [("c0", b"x")], 1),
+                    (0, "writing", "badValueCaught", [("w1", b"11"), ("B" * klen, "not-bytes"), ("w2", b"2"), ("w3", b"333333")], 4),
+                    (1, "reading", "none", [], 0),
+                    (1, "writing", "none", [("o1", b"")], 1),
+                    (0, "reading", "none", [], 0)]))
         for dn, (bufs, script) in enumerate(directed):
             tag = [[c, k, f, [[a, hx(b) if isinstance(b, bytes) else 'str:' + b] for a, b in p], cut] for c, k, f, p, cut in script]
             run_script(ctx, probe, work / "real" / f"directed{dn}.ukv", bufs, script, tag,
@@ -736,7 +761,7 @@ def run(ctx):
                     bufs[ci] = "ro"          # a read-only handle among the long-lived collection objects
             with_bad = (n % 3 == 2)      # every third script injects value-encoder faults (checked by the oracle only)
             script = gen_script(ctx.rng, ncols, ctx.rng.range(3, 8), bufs, allow_bad=with_bad)
-            with_bad = any(s_[2] == "badValue" for s_ in script)
+            with_bad = any(s_[2] in ("badValue", "badValueCaught") for s_ in script)
             tag = [[c, k, f, [[a, hx(b) if isinstance(b, bytes) else 'str:' + b] for a, b in p], cut] for c, k, f, p, cut in script]
             inside = {ctx.rng.below(len(script))} if n < (12 if ctx.quick() else 80) else ()
             toks = run_script(ctx, probe, work / "real" / f"script{n}.ukv", bufs, script, tag,
